@@ -487,3 +487,92 @@ def r3(cx):
                      "(rows of different series are mixed)" % (o["sp"], "assigned to `%s`, which lives across iterations" % carried[0] if carried else "not computed inside the per-resource iteration"), [o["sp"]])
     else:
         cx.passed(ok_, "resource-labels-per-resource", [o["sp"]])
+
+
+def _collection_loop(cx, fk, set_name_rx, label):
+    """the nested key-collection loop around a HashSet insert: every element of the outer collection runs the inner loop to exhaustion, and inside the inner loop the insert is
+    skipped only by the reviewed guards (comparison with "__name__", membership in the same set)"""
+    b = cx.body(fk)
+    if b is None:
+        cx.violation(fk, "anchor-missing", "body not found", [])
+        return
+    ins = [bi for bi, t in b.calls() if t["callee"].endswith("HashSet::<T, S, A>::insert") and "String" in b.locals[t["args"][0]["pl"]["l"]]["ty"]
+           and re.search(set_name_rx, " ".join(str(b.name_of(x[1])) if x[0] == "local" else str(x) for x in M.operand_origins(b, t["args"][0], at=(bi, M.T))) + " " + b.locals[t["args"][0]["pl"]["l"]]["ty"])]
+    ins = ins[:1] or [bi for bi, t in b.calls() if t["callee"].endswith("HashSet::<T, S, A>::insert")][:1]
+    if not cx.floor("label-name inserts in %s" % fk.rsplit("::", 1)[1], len(ins), 1, fk):
+        return
+    i = ins[0]
+    fwd = b.reachable(i)
+    scc = {x for x in fwd if i in b.reachable(x)} | {i}
+    nexts = [x for x in sorted(scc) if b.term(x)["k"] == "call" and b.term(x)["callee"].endswith("::next")]
+    if len(nexts) < 2:
+        cx.violation(fk, "%s:every-key-of-every-element" % label, "%s: the label-name collection is no longer a loop over the elements with an inner loop over each element's labels" % b.sp(i), [b.sp(i)])
+        return
+    inner = [n for n in nexts if b.term(n).get("target") is not None and b.reaches(b.term(n)["target"], n, removed_blocks=set(nexts) - {n})]
+    outer = [n for n in nexts if n not in inner]
+    if not inner or not outer:
+        cx.violation(fk, "%s:every-key-of-every-element" % label, "%s: cannot tell the element loop from the label loop (fail closed)" % b.sp(i), [b.sp(i)])
+        return
+    inner_none = set()
+    for n in inner:
+        inner_none |= M.outcome_edges(b, n)[1]
+    skipped = []
+    for on in outer:
+        for (sb, tg) in M.outcome_edges(b, on)[0]:
+            if b.reaches(tg, on, removed_edges=inner_none) or tg == on:
+                skipped.append(on)
+    # guards allowed to skip the insert inside the label loop
+    guards = set()
+    for sw in M.bool_switches(b):
+        r = sw["root"]
+        if not (r and r[2] == "call"):
+            continue
+        c = r[3]["callee"]
+        org = set()
+        for a in r[3]["args"]:
+            org |= M.operand_origins(b, a, at=(r[0], M.T))
+        if re.search(r"PartialEq.*::(eq|ne)$", c) and any(x[0] == "const" and "__name__" in str(x[1]) for x in org):
+            guards.add(sw["block"])
+        if c.endswith("HashSet::<T, S, A>::contains"):
+            guards.add(sw["block"])
+    leak = []
+    for n in inner:
+        for (sb, tg) in M.outcome_edges(b, n)[0]:
+            if b.reaches(tg, n, removed_blocks={i} | guards):
+                leak.append(n)
+    if skipped:
+        cx.violation(fk, "%s:every-key-of-every-element" % label, "%s: an element can be passed over without its labels being walked to the end (an early `continue` / `break` in the collection "
+                     "loop): a label that occurs only on such elements gets no column and is silently dropped from every row" % b.sp(skipped[0]), [b.sp(skipped[0])])
+    elif leak:
+        cx.violation(fk, "%s:every-key-of-every-element" % label, "%s: inside the label loop the insert can be skipped by a condition other than the `__name__` test / set membership" % b.sp(leak[0]), [b.sp(leak[0])])
+    else:
+        cx.passed(fk, "%s:every-key-of-every-element" % label, [b.sp(i)])
+
+
+@rule("C17", "R4", "every label becomes a column: the label-name collection of both converters walks every label of every series / data point (no element is skipped, the label loop ends only "
+      "when the labels run out, the insert is guarded by nothing but the `__name__` test or set membership); and the remote-write handler parses exactly the bytes THIS request "
+      "decompressed to - a fresh decompress_vec result, not a buffer that outlives the request")
+def r4(cx):
+    _collection_loop(cx, PROM + "convert_prom_to_arrow", r"label_names", "remote-write")
+    _collection_loop(cx, "api::ingest::otlp::data_points_to_arrow", r"label_keys", "otlp")
+    # parse_write_request(<decompress_vec(body)>)
+    n = 0
+    for k, c in cx.prog.sites(lambda c: c == PROM + "parse_write_request"):
+        b = cx.body(k)
+        if b is None:
+            continue
+        for bi, t in b.calls():
+            if t["callee"] != PROM + "parse_write_request" or t.get("sp") != c["sp"]:
+                continue
+            n += 1
+            o = M.operand_origins(b, t["args"][0], at=(bi, M.T))
+            calls = {x[1][1] for x in o if x[0] == "call"}
+            fresh = any(re.search(r"snap::raw::Decoder::decompress_vec$", x) for x in calls)
+            foreign = sorted(x for x in calls if not re.search(r"decompress_vec$", x))
+            shared = [x for x in o if x[0] in ("upvar", "arg", "const", "static") and not (x[0] == "arg" and False)]
+            if fresh and not foreign:
+                cx.passed(k, "parses-this-requests-bytes", [b.sp(bi)])
+            else:
+                cx.violation(k, "parses-this-requests-bytes", "%s: the protobuf reader is not handed the fresh result of decompress_vec(body) (it reads %s): a protobuf message has no terminator, so "
+                             "bytes left in a reused buffer by an earlier, larger request are parsed as further series of this one" % (b.sp(bi), foreign or "a buffer that is not this request's decompression"), [b.sp(bi)])
+    cx.floor("parse_write_request call sites", n, 1)
